@@ -120,7 +120,13 @@ class World:
         class TimeitProxy:
             default_timer = staticmethod(self.clock.default_timer)
 
+        def snapshot_sorted(*a, **kw):
+            r = sorted(*a, **kw)
+            w.sref[0].point("lru.snapshot")  # between the eviction snapshot and the deletions
+            return r
+
         return [
+            mock.patch.object(mako.util, "sorted", snapshot_sorted, create=True),
             mock.patch.object(mako.codegen, "time", self.clock),
             mock.patch.object(mako.util, "timeit", TimeitProxy),
             mock.patch.object(mako.lookup, "Template", counting),
@@ -157,6 +163,10 @@ def scenario(kind, nthreads, variant):
         return {"files": {"/a.html": BODY % "a", "/b.html": BODY % "b", "/c.html": BODY % "c", "/d.html": BODY % "d"},
                 "ops": [[("get", u) for u in (["/a.html", "/b.html", "/c.html"] if i % 2 == 0 else ["/c.html", "/d.html", "/a.html"])] for i in range(nthreads)],
                 "preload": [], "collection_size": 1 + variant % 2}
+    if kind == "bounded-vanish":
+        files = {"/a.html": BODY % "a", "/b.html": BODY % "b", "/c.html": BODY % "c", "/d.html": BODY % "d", "/e.html": BODY % "e"}
+        ops = [[("get", "/d.html"), ("get", "/e.html")]] + [[("get", "/a.html"), ("get", "/b.html")][: 1 + i % 2] for i in range(nthreads - 1)]
+        return {"files": files, "ops": ops, "preload": ["/a.html", "/b.html", "/c.html"], "collection_size": 2, "vanish": ["/a.html"]}
     raise AssertionError(kind)
 
 
@@ -185,6 +195,8 @@ def execute(case, chooser, d, fine):
             w.lookup.get_template(u)
         w.constructions.clear()
         w.clock.now += 1.0
+        for u in sc.get("vanish", []):
+            os.remove(w.path(u))
 
         def worker(ops, tid):
             def run():
@@ -217,6 +229,10 @@ def execute(case, chooser, d, fine):
         # ---- oracle -------------------------------------------------------
         for tid, op, vs, ve, res in records:
             u = op[1]
+            if u in sc.get("vanish", []):
+                if res[0] != "lookup-error":
+                    return sch, "get_template(%s) of a vanished file gave %r" % (u, res), "vanished-file-result:" + str(res[0])
+                continue
             if u == "/bad.html":
                 if res[0] != "compile-error":
                     return sch, "get_template(%s) of a broken file gave %r" % (u, res), "broken-file-result"
@@ -249,7 +265,7 @@ def execute(case, chooser, d, fine):
             return sch, "lookup mutex still held at the end", "mutex-leaked"
         # the lookup is still usable
         try:
-            w.lookup.get_template("/a.html").render(x="Y")
+            w.lookup.get_template("/c.html" if "vanish" in sc else "/a.html").render(x="Y")
         except Exception as e:
             return sch, "lookup unusable afterwards: %r" % e, "lookup-unusable"
         return sch, None, None
@@ -326,7 +342,7 @@ def render_case(data, ev, d, fails):
 
 
 # ---- shards --------------------------------------------------------------------
-KINDS = ["first-load-same", "different-uris", "modify-race", "failing-compile", "bounded"]
+KINDS = ["first-load-same", "different-uris", "modify-race", "failing-compile", "bounded", "bounded-vanish"]
 
 
 def shard_dfs(task):
